@@ -93,6 +93,7 @@ type checker struct {
 	deadline  time.Time
 	truncated []string
 	products  int
+	r0        time.Time
 	pkeys     map[string][]string
 }
 
@@ -107,6 +108,16 @@ func (ck *checker) parentKeys(in *Input) []string {
 	}
 	ck.pkeys[in.Key()] = l
 	return l
+}
+
+func (ck *checker) minLevel(lang string) int {
+	min := 3
+	for _, x := range ck.space[lang] {
+		if x.Level < min {
+			min = x.Level
+		}
+	}
+	return min
 }
 
 func (ck *checker) inSpace(c Cfg) bool {
@@ -227,7 +238,7 @@ func (ck *checker) condOf(in *Input, lang, diagKey string) condInfo {
 			continue
 		}
 		var lits []string
-		if m.Level > 0 {
+		if m.Level > ck.minLevel(lang) { // the lowest output selection of the space is not a condition
 			lits = append(lits, levelLit[m.Level])
 		}
 		lits = append(lits, m.flagNames()...)
@@ -315,9 +326,7 @@ func (ck *checker) failures() failureSet {
 					}
 				}
 				if cond == "" {
-					if c.In.Schema != nil || c.Cfg.Lang != "go" {
-						fs.needed[c.Cfg.Lang+": "+d.Key()] = append(fs.needed[c.Cfg.Lang+": "+d.Key()], c)
-					}
+					fs.needed[c.Cfg.Lang+": "+d.Key()] = append(fs.needed[c.Cfg.Lang+": "+d.Key()], c)
 					cond = "not minimised"
 				}
 			}
@@ -385,8 +394,9 @@ func frontierOf(list []vx.Failure) []vx.Failure {
 	return o2
 }
 
-// minimise: (1) Go diagnostics first seen outside the complete product get
-// the complete product on their two smallest witnesses; (2) greedy descent:
+// minimise: (1) diagnostics first seen outside a complete product get, on
+// their smallest witness, every sub-combination of the failing
+// configuration (Go) / the whole space (other languages); (2) greedy descent:
 // the unevaluated one-step reductions (schema reductions at the same
 // configuration, and one flag / one output less) of every frontier element
 // are evaluated, until the frontier is stable.
@@ -414,22 +424,27 @@ func (ck *checker) minimise(maxRounds int) (rounds int, stable bool) {
 				}
 				return l[i].Witness() < l[j].Witness()
 			})
-			for i := 0; i < len(l) && i < 2; i++ {
+			for i := 0; i < len(l) && i < 1; i++ {
 				k := l[i].Cfg.Lang + "\x00" + l[i].In.Key()
 				if seenIn[k] {
 					continue
 				}
 				if l[i].Cfg.Lang == "go" {
-					if goProducts >= 24 {
+					if goProducts >= 40 {
 						continue
 					}
 					goProducts++
 				}
 				seenIn[k] = true
 				prodInputs = append(prodInputs, l[i].In)
+				// Go: the down-set of the failing configuration (every combination of the flags and outputs
+				// that were on); the other languages: their whole (tiny) space
 				for _, cfg := range ck.space[l[i].Cfg.Lang] {
-					cases = append(cases, &Case{In: l[i].In, Cfg: cfg, Part: "product"})
+					if l[i].Cfg.Lang != "go" || cfg.leq(l[i].Cfg) {
+						cases = append(cases, &Case{In: l[i].In, Cfg: cfg, Part: "product"})
+					}
 				}
+				ck.complete[l[i].In.Key()+"\x00"+l[i].Cfg.Lang] = true
 			}
 		}
 		ck.products += goProducts
@@ -451,6 +466,9 @@ func (ck *checker) minimise(maxRounds int) (rounds int, stable bool) {
 		}
 		if len(cases) == 0 {
 			return rounds, true
+		}
+		if os.Getenv("C02_DEBUG") != "" {
+			fmt.Fprintf(os.Stderr, "minimise round %d: %d cases (%d go products), frontier %d, t=%.0fs\n", rounds, len(cases), goProducts, len(frontierOf(fs.list)), time.Since(ck.r0).Seconds())
 		}
 		ck.add(ck.ev.Eval(cases))
 		ck.markComplete(prodInputs)
@@ -474,11 +492,12 @@ func main() {
 			ck.space[c.Lang] = append(ck.space[c.Lang], c)
 		}
 	}
-	budget := 215 * time.Second
+	budget := 232 * time.Second
 	if r.Thorough() {
 		budget = 23 * time.Minute
 	}
 	ck.deadline = start.Add(budget)
+	ck.r0 = start
 
 	if r.Replay != "" {
 		replay(r, ck)
@@ -571,7 +590,15 @@ func main() {
 	for _, s := range irgen.SeedSchemas() {
 		inputsC = append(inputsC, irInput(s))
 	}
-	for _, t := range irgen.Types(irgen.Config{Depth: 2}) {
+	// Leaves: irgen's defaults without the composable slot (a slot is only meaningful together with the
+	// kind registry's variants runtime, which a bare IR does not carry).
+	var leavesC []irgen.Term
+	for _, l := range irgen.DefaultLeaves() {
+		if l.K != "slot" {
+			leavesC = append(leavesC, l)
+		}
+	}
+	for _, t := range irgen.Types(irgen.Config{Depth: 2, Leaves: leavesC}) {
 		inputsC = append(inputsC, irInput(irgen.WithField(t, true)))
 		if r.Thorough() {
 			inputsC = append(inputsC, irInput(irgen.WithField(t, false)))
@@ -654,7 +681,7 @@ func main() {
 		"part_A":                         map[string]any{"schemas": doneA, "of": len(inputsA), "go_configurations": len(allGoCfgs()), "units": doneA * len(allGoCfgs()), "format_used": fallback, "wall_s": tA.Seconds()},
 		"part_B":                         map[string]any{"abstract_schemas": len(schemasB), "schema_format_inputs": doneB, "of": len(inputsB), "configurations_per_input": len(partBCfgs(r.Thorough())), "formats_skipped": skipped, "wall_s": tB.Seconds()},
 		"part_C":                         map[string]any{"irs": doneC, "configurations_per_ir": len(cfgsC), "path": "real codegen.Pipeline.Run; IR injected through the exported Pipeline.Transforms.CommonPasses hook", "wall_s": tC.Seconds()},
-		"minimisation":                   map[string]any{"rounds": rounds, "stable": stable, "complete_go_products_on_demand": ck.products, "wall_s": tMin.Seconds()},
+		"minimisation":                   map[string]any{"rounds": rounds, "stable": stable, "go_option_downsets_on_demand": ck.products, "wall_s": tMin.Seconds()},
 		"per_language":                   perLang,
 		"refusals_distinct_messages":     refusals,
 		"go_packages_compiled":           ev.goPkgsCompiled,
@@ -674,8 +701,9 @@ func main() {
 		"TypeScript and PHP are scanned for placeholders only (no tsc / php on this machine; the property demands compilation for Go, Python and Java)",
 		"go build without vet; Java is compiled with javac 17 against jackson-{annotations,core,databind} 2.15.1; Python 3.11 py_compile + import of every generated module",
 		"files identical for two unrelated schemas (static runtime files) are not scanned for placeholders; output selections are the chain types < +builders < +converters < +api_reference",
-		"part B Go diagnostics inherit the flag condition of the same diagnostic in part A when compatible; otherwise the complete product is run on their two smallest witnesses",
-		"directly constructed IRs (part C) are not reduced; their smallest witness per kind is reported and their flag condition is not minimised unless the diagnostic also occurs in a complete product",
+		"a Go diagnostic seen outside part A inherits the flag condition of the same diagnostic in part A when that condition covers the failing configuration; otherwise every sub-combination of the failing configuration's flags and outputs is evaluated on its smallest witness and the condition is computed from those (no ¬skip_runtime / ¬api_reference literals then)",
+		"directly constructed IRs (part C) are not reduced (no reduction relation on IR specs is used); the smallest witness per kind is reported",
+		"schema reductions that leave grammar G (reported minimal witnesses often do) are rendered by the same renderers and evaluated on demand, starting from the smallest witness of each kind (greedy descent)",
 	})
 }
 
